@@ -501,7 +501,36 @@ def rule_share(ctx) -> None:
     ctx.check(not e2, "C09.SHARE", f"{cs.qual}/no-shared-writes", cs.loc(), "collect_shard_hits writes only its own fresh result", f"collect_shard_hits writes shared state: {e2[0].fmt() if e2 else ''}")
 
 
+def rule_one_shot(ctx) -> None:
+    """the parallel paths hand the per-task results to reducers that walk them once per tier / per field; a one-shot iterator
+    (generator expression, map/filter/zip, generator call) in that position is empty from the second walk on, so the parallel
+    result keeps the first tier only while the sequential walk keeps all of them"""
+    from .. import hazards
+    mods = [T1, "clematis.engine.stages.t2.core", "clematis.engine.stages.t2.parallel", "clematis.engine.stages.t2.shard", "clematis.engine.stages.t2_shard", "clematis.engine.util.parallel", "clematis.engine.orchestrator.parallel"]
+    n_calls = 0
+    bad = 0
+    for mn in mods:
+        if mn not in ctx.prog.modules:
+            continue
+        m = ctx.prog.module(mn)
+        for fn in m.funcs.values():
+            if "." in fn.qual.split(":")[-1] and fn.qual.split(":")[-1].split(".")[0] in {g.name for g in m.funcs.values()}:
+                continue  # nested defs are covered from their parent
+            n_calls += sum(1 for sc in [fn] + [g for g in m.funcs.values() if g.qual.startswith(fn.qual + ".")] for x in walk_no_defs(sc.node)
+                           if isinstance(x, ast.Call) and (r := ctx.prog.callee(sc, x)) and r[0] == "func" and (x.args or x.keywords))
+            for call, a, what, cq, site in hazards.single_use_multi_iter(ctx, fn):
+                bad += 1
+                ctx.violation("C09.CALL", ctx.okey(f"{fn.qual}/one-shot-iterator-walked-twice"), fn.loc(call),
+                              f"`{src(a)[:50]}` is {what}, but {cq.split(':')[-1]} walks that parameter more than once (again at L{getattr(site, 'lineno', '?')}): every walk after the first is "
+                              "empty, so the reducer of the parallel path drops what the sequential walk keeps (later tiers / later fields)")
+    ctx.floor("C09.CALL", "calls into program functions in the fan-out / reducer modules", n_calls, 40)
+    ctx.holds("C09.CALL", "fan-out-modules/no-one-shot-iterator-rewalked", "clematis/engine/stages",
+              f"{n_calls} calls into program functions examined: {bad} pass a one-shot iterator to a parameter walked more than once; "
+              + hazards.controls(ctx, "clematis.engine.health", ["oneshot"]))
+
+
 def run(ctx) -> None:
+    rule_one_shot(ctx)
     rule_merge(ctx)
     rule_call(ctx)
     rule_sib_t1(ctx)
